@@ -25,7 +25,7 @@ def _glib_flags():
 
 def cflags(repo=None):
     repo = repo or REPO
-    return ["-std=gnu11", "-DNDEBUG", "-D" + GUARD, "-I" + os.path.join(repo, "include")] + _glib_flags()
+    return ["-std=gnu11", "-DNDEBUG", "-D" + GUARD, "-I" + os.path.join(repo, "include"), "-I" + os.path.join(repo, "src")] + _glib_flags()
 
 
 def ensure_irdump():
@@ -58,11 +58,138 @@ def _compile(args):
     src, out, flags = args
     cmd = ["clang"] + flags + ["-O0", "-g", "-Xclang", "-disable-O0-optnone", "-emit-llvm", "-c", src, "-o", out, "-w"]
     r = subprocess.run(cmd, capture_output=True, text=True)
+    if r.returncode != 0:
+        return src, r.returncode, r.stderr
+    # one JSON per unit: llvm-link would merge isomorphic struct types of different units
+    # (t_bidib_track_output_state {char*, int} becomes _GArray), which destroys field identity
+    r = subprocess.run([IRDUMP, out, out[:-3] + ".json"], capture_output=True, text=True)
     return src, r.returncode, r.stderr
 
 
+def _rename_unit(d, ren):
+    """apply internal-symbol renames inside one unit's JSON"""
+    def opnd(o):
+        if isinstance(o, dict):
+            if o.get("k") in ("global", "func") and o.get("name") in ren:
+                o["name"] = ren[o["name"]]
+            if "g" in o and o["g"] in ren:
+                o["g"] = ren[o["g"]]
+
+    def walk_init(v):
+        if isinstance(v, dict):
+            opnd(v)
+        elif isinstance(v, list):
+            for x in v:
+                walk_init(x)
+
+    for g in d["globals"]:
+        if g["name"] in ren:
+            g["name"] = ren[g["name"]]
+        if "init" in g:
+            walk_init(g["init"])
+    for f in d["functions"]:
+        if f["name"] in ren:
+            f["name"] = ren[f["name"]]
+        for b in f["blocks"]:
+            for i in b["insts"]:
+                if i.get("callee") in ren:
+                    i["callee"] = ren[i["callee"]]
+                for k in ("ptr", "val", "a", "b", "base", "cond", "fptr", "count"):
+                    opnd(i.get(k))
+                for x in i.get("idx", ()):
+                    opnd(x["v"])
+                for x in i.get("args", ()):
+                    opnd(x)
+                for x in i.get("incoming", ()):
+                    opnd(x[1])
+                for x in i.get("operands", ()):
+                    opnd(x)
+
+
+def _shift_ditypes(d, base):
+    if base == 0:
+        return
+    def sh(x):
+        return x + base if isinstance(x, int) and x >= 0 else x
+    for t in d["ditypes"]:
+        t["id"] = sh(t["id"])
+        if "base" in t:
+            t["base"] = sh(t["base"])
+        if "members" in t:
+            t["members"] = [sh(m) for m in t["members"]]
+    for g in d["globals"]:
+        if "ditype" in g:
+            g["ditype"] = sh(g["ditype"])
+    for f in d["functions"]:
+        if "ditypes" in f:
+            f["ditypes"] = [sh(x) for x in f["ditypes"]]
+        for p in f["params"]:
+            if "ditype" in p:
+                p["ditype"] = sh(p["ditype"])
+        for b in f["blocks"]:
+            for i in b["insts"]:
+                if "ditype" in i:
+                    i["ditype"] = sh(i["ditype"])
+
+
+def merge_units(paths):
+    """per-unit program models -> one whole-program model (internal symbols that collide are renamed per unit)"""
+    units = []
+    for p in paths:
+        with open(p) as f:
+            units.append(json.load(f))
+    ext_defs = set()
+    internal_count = {}
+    for d in units:
+        for g in d["globals"]:
+            if not g["decl"]:
+                if g["internal"]:
+                    internal_count[g["name"]] = internal_count.get(g["name"], 0) + 1
+                else:
+                    ext_defs.add(g["name"])
+        for f in d["functions"]:
+            if f["internal"]:
+                internal_count[f["name"]] = internal_count.get(f["name"], 0) + 1
+            else:
+                ext_defs.add(f["name"])
+    merged = {"datalayout": units[0]["datalayout"], "globals": [], "functions": [], "decls": [], "structs": {}, "unit_structs": [], "ditypes": []}
+    gseen = {}
+    for u, d in enumerate(units):
+        ren = {}
+        for g in d["globals"]:
+            if not g["decl"] and g["internal"] and (internal_count[g["name"]] > 1 or g["name"] in ext_defs):
+                ren[g["name"]] = "%s.u%02d" % (g["name"], u)
+        for f in d["functions"]:
+            if f["internal"] and (internal_count[f["name"]] > 1 or f["name"] in ext_defs):
+                ren[f["name"]] = "%s.u%02d" % (f["name"], u)
+        if ren:
+            _rename_unit(d, ren)
+        _shift_ditypes(d, len(merged["ditypes"]))
+        merged["ditypes"].extend(d["ditypes"])
+        for g in d["globals"]:
+            g["unit"] = u
+            prev = gseen.get(g["name"])
+            if prev is None:
+                gseen[g["name"]] = g
+            elif prev["decl"] and not g["decl"]:
+                gseen[g["name"]] = g
+        for f in d["functions"]:
+            f["unit"] = u
+            merged["functions"].append(f)
+        merged["unit_structs"].append(d["structs"])
+        for k, v in d["structs"].items():
+            merged["structs"].setdefault(k, v)
+    merged["globals"] = list(gseen.values())
+    defined = {f["name"] for f in merged["functions"]}
+    decls = set()
+    for d in units:
+        decls |= set(d["decls"])
+    merged["decls"] = sorted(decls - defined)
+    return merged
+
+
 def build_model(repo=None, extra_sources=(), wd=None):
-    """Returns (path of linked json, dict with build facts)."""
+    """Returns (merged program model dict, dict with build facts)."""
     repo = repo or REPO
     t0 = time.time()
     ensure_irdump()
@@ -79,17 +206,10 @@ def build_model(repo=None, extra_sources=(), wd=None):
     bad = [(s, e) for s, rc, e in res if rc != 0]
     if bad:
         raise AnalysisBroken("units failed to compile: " + "; ".join("%s: %s" % (s, e[-600:]) for s, e in bad))
-    linked = os.path.join(wd, "linked.bc")
-    r = subprocess.run(["llvm-link-14", "-o", linked] + [j[1] for j in jobs], capture_output=True, text=True)
-    if r.returncode != 0:
-        raise AnalysisBroken("llvm-link failed: " + r.stderr[-2000:])
-    outj = os.path.join(wd, "linked.json")
-    r = subprocess.run([IRDUMP, linked, outj], capture_output=True, text=True)
-    if r.returncode != 0:
-        raise AnalysisBroken("irdump failed: " + r.stderr[-2000:])
+    merged = merge_units([j[1][:-3] + ".json" for j in jobs])
     facts = {"units": [os.path.relpath(u, repo) for u in units], "n_units": len(units),
              "extra": [os.path.basename(x) for x in extra_sources], "build_s": round(time.time() - t0, 2), "workdir": wd}
-    return outj, facts
+    return merged, facts
 
 
 _macro_cache = {}
